@@ -1197,3 +1197,466 @@ Proof.
   unfold prop_rt_nested. destruct (valid_tree t) eqn:Hv; [|reflexivity].
   rewrite rt_nested_ok by exact Hv. apply same_tree_norm. exact Hv.
 Qed.
+
+(* ---------------------------------------------------------------------------------------------- *)
+(* more dict facts: keys of dict_set / dict_update *)
+
+Section DictKeys.
+  Context {V : Type}.
+  Implicit Types d items : list (str * V).
+
+  Lemma dict_set_keys k (v : V) d x :
+    In x (map fst (dict_set k v d)) <-> x = k \/ In x (map fst d).
+  Proof.
+    induction d as [|[k' v'] d IH]; cbn [dict_set map fst].
+    - split; [intros [E|[]]; left; symmetry; exact E|intros [E|[]]; left; symmetry; exact E].
+    - destruct (str_eqb k k') eqn:E; cbn [map fst In].
+      + apply str_eqb_eq in E. subst k'. split.
+        * intros [H|H]; [left; symmetry; exact H|right; right; exact H].
+        * intros [H|[H|H]]; [left; symmetry; exact H|left; exact H|right; exact H].
+      + rewrite IH. split.
+        * intros [H|[H|H]]; [right; left; exact H|left; exact H|right; right; exact H].
+        * intros [H|[H|H]]; [right; left; exact H|left; exact H|right; right; exact H].
+  Qed.
+
+  Lemma dict_set_nodup k (v : V) d : NoDup (map fst d) -> NoDup (map fst (dict_set k v d)).
+  Proof.
+    induction d as [|[k' v'] d IH]; intros H; cbn [dict_set map fst].
+    - constructor; [intros []|constructor].
+    - cbn [map fst] in H. inversion H as [|? ? Hk Hd]; subst. destruct (str_eqb k k') eqn:E; cbn [map fst].
+      + apply str_eqb_eq in E. subst k'. constructor; assumption.
+      + constructor; [|apply IH; exact Hd]. rewrite dict_set_keys. intros [H1|H1]; [|contradiction].
+        subst k'. rewrite str_eqb_refl in E. discriminate.
+  Qed.
+
+  Lemma dict_update_keys items : forall d x,
+    In x (map fst (dict_update d items)) <-> In x (map fst d) \/ In x (map fst items).
+  Proof.
+    induction items as [|[k v] items IH]; intros d x.
+    - cbn. tauto.
+    - unfold dict_update. cbn [fold_left fst snd]. fold (dict_update (dict_set k v d) items).
+      rewrite IH, dict_set_keys. cbn [map fst]. split.
+      + intros [[H|H]|H]; [right; left; symmetry; exact H|left; exact H|right; right; exact H].
+      + intros [H|[H|H]]; [left; right; exact H|left; left; symmetry; exact H|right; exact H].
+  Qed.
+
+  Lemma dict_update_nodup items : forall d, NoDup (map fst d) -> NoDup (map fst (dict_update d items)).
+  Proof.
+    induction items as [|[k v] items IH]; intros d H; [exact H|].
+    unfold dict_update. cbn [fold_left fst snd]. fold (dict_update (dict_set k v d) items).
+    apply IH. apply dict_set_nodup. exact H.
+  Qed.
+
+  Lemma dict_set_head k (v : V) k0 v0 d : exists v1 d1, dict_set k v ((k0, v0) :: d) = (k0, v1) :: d1.
+  Proof.
+    cbn [dict_set]. destruct (str_eqb k k0) eqn:E.
+    - apply str_eqb_eq in E. subst. eexists. eexists. reflexivity.
+    - eexists. eexists. reflexivity.
+  Qed.
+
+  Lemma dict_update_head items : forall k0 (v0 : V) d,
+    exists v1 d1, dict_update ((k0, v0) :: d) items = (k0, v1) :: d1.
+  Proof.
+    induction items as [|[k v] items IH]; intros k0 v0 d.
+    - eexists. eexists. reflexivity.
+    - unfold dict_update. cbn [fold_left fst snd]. destruct (dict_set_head k v k0 v0 d) as [v1 [d1 E]].
+      rewrite E. apply IH.
+  Qed.
+
+  Lemma dict_get_some_in k (v : V) d : dict_get k d = Some v -> In (k, v) d.
+  Proof.
+    induction d as [|[k' v'] d IH]; intros H; [discriminate|]. cbn [dict_get] in H.
+    destruct (str_eqb k k') eqn:E.
+    - apply str_eqb_eq in E. injection H as ->. subst. left. reflexivity.
+    - right. apply IH. exact H.
+  Qed.
+End DictKeys.
+
+(* ---------------------------------------------------------------------------------------------- *)
+(* frames *)
+
+Definition lookup (c : str) (r : record) : val :=
+  match dict_get c r with Some v => v | None => VNone end.
+Definition fill (cols : list str) (r : record) : record := map (fun c => (c, lookup c r)) cols.
+
+Lemma frame_of_fill rows : frame_columns rows <> [] -> frame_of rows = map (fill (frame_columns rows)) rows.
+Proof. intros H. unfold frame_of. destruct (frame_columns rows) as [|c0 cs]; [contradiction|reflexivity]. Qed.
+
+Lemma dict_get_fill k cols r : In k cols -> dict_get k (fill cols r) = Some (lookup k r).
+Proof.
+  induction cols as [|c cols IH]; intros H; [destruct H|]. cbn [fill map dict_get].
+  destruct (str_eqb k c) eqn:E.
+  - apply str_eqb_eq in E. subst. reflexivity.
+  - apply IH. destruct H as [H|H]; [subst; rewrite str_eqb_refl in E; discriminate|exact H].
+Qed.
+
+Lemma dict_del_fill k cols r :
+  dict_del k (fill cols r) = fill (filter (fun c => negb (str_eqb c k)) cols) r.
+Proof.
+  induction cols as [|c cols IH]; [reflexivity|]. unfold dict_del, fill in *. cbn [map filter fst].
+  destruct (str_eqb c k); cbn [negb map]; [exact IH|]. f_equal. exact IH.
+Qed.
+
+Lemma fill_keys cols r : map fst (fill cols r) = cols.
+Proof. unfold fill. rewrite map_map. cbn [fst]. apply map_id. Qed.
+
+Lemma frame_columns_head k0 v0 r0 rest :
+  exists cols', frame_columns (((k0, v0) :: r0) :: rest) = k0 :: cols'.
+Proof.
+  unfold frame_columns, dict_of. cbn [concat app]. unfold dict_update at 1. cbn [fold_left fst snd dict_set].
+  destruct (dict_update_head (r0 ++ concat rest) k0 v0 []) as [v1 [d1 E]].
+  unfold dict_update in E. rewrite E. eexists. reflexivity.
+Qed.
+
+Lemma frame_columns_nodup rows : NoDup (frame_columns rows).
+Proof. unfold frame_columns, dict_of. apply dict_update_nodup. constructor. Qed.
+
+Lemma frame_columns_in rows r k : In r rows -> In k (map fst r) -> In k (frame_columns rows).
+Proof.
+  intros Hr Hk. unfold frame_columns, dict_of. apply dict_update_keys. right.
+  apply in_map_iff in Hk as [kv [E Hkv]]. apply in_map_iff. exists kv. split; [exact E|].
+  apply in_concat. exists r. split; assumption.
+Qed.
+
+(* paths without the leading separator (what is left after pandas' str.lstrip) *)
+Section ParseJoin.
+  Variable c : N.
+
+  Lemma strip_path_join w ws : Forall (clean c) (w :: ws) ->
+    strip_path (join [c] (w :: ws)) [c] = join [c] (w :: ws).
+  Proof.
+    intros HF. unfold strip_path. destruct (join_last c ws w HF) as [s' [y [E Hy]]].
+    inversion HF as [|? ? [Hw Hc] _]; subst. destruct w as [|x w]; [contradiction|].
+    destruct (join_head c x w ws) as [s Es].
+    assert (Hx : x <> c) by (intros ->; apply Hc; left; reflexivity).
+    unfold str in *. rewrite Es, lstrip_other by exact Hx. rewrite <- Es, E. apply rstrip_other. exact Hy.
+  Qed.
+
+  Lemma branch_of_join l : l <> [] -> Forall (clean c) l -> branch_of (join [c] l) [c] = l.
+  Proof.
+    intros Hne HF. destruct l as [|w ws]; [contradiction|].
+    unfold branch_of. rewrite strip_path_join by exact HF. apply split_join.
+    eapply Forall_impl; [|exact HF]. intros x [_ H]. exact H.
+  Qed.
+
+  Lemma join_not_empty w ws : clean c w -> is_empty (join [c] (w :: ws)) = false.
+  Proof.
+    intros [Hw _]. destruct w as [|x w]; [contradiction|]. destruct (join_head c x w ws) as [s Es].
+    unfold str in *. rewrite Es. reflexivity.
+  Qed.
+
+  Lemma join_inj l1 l2 : l1 <> [] -> l2 <> [] -> Forall (clean c) l1 -> Forall (clean c) l2 ->
+    join [c] l1 = join [c] l2 -> l1 = l2.
+  Proof.
+    intros N1 N2 H1 H2 E. rewrite <- (branch_of_join l1 N1 H1), <- (branch_of_join l2 N2 H2), E. reflexivity.
+  Qed.
+
+  Lemma add_path_join_ok t r rest na :
+    tname t = r -> Forall (clean c) (r :: rest) ->
+    add_path_to_tree t (join [c] (r :: rest)) [c] na = Ret (add_branch rest na t).
+  Proof.
+    intros Hr HF. unfold add_path_to_tree. rewrite branch_of_join by (try discriminate; exact HF).
+    inversion HF as [|? ? Hcr HF']; subst. rewrite join_not_empty by exact Hcr.
+    rewrite str_eqb_refl. cbn [negb].
+    assert (E : existsb is_empty rest = false).
+    { clear HF. induction rest as [|w rest IH]; [reflexivity|]. inversion HF' as [|? ? [Hw _] HF'']; subst.
+      cbn [existsb]. destruct w; [contradiction|]. cbn. apply IH. exact HF''. }
+    rewrite E. reflexivity.
+  Qed.
+
+  Lemma add_paths_join_ok r items : forall t0,
+    tname t0 = r -> Forall (fun qr => Forall (clean c) (r :: fst qr)) items ->
+    add_paths [c] (map (fun qr => (join [c] (r :: fst qr), snd qr)) items) t0 = Ret (ins_all items t0).
+  Proof.
+    induction items as [|x items IH]; intros t0 Hr HF; [reflexivity|].
+    inversion HF as [|? ? Hx HF']; subst. cbn [map add_paths fst snd].
+    rewrite (add_path_join_ok t0 (tname t0)) by (try reflexivity; exact Hx).
+    rewrite ins_all_cons. apply IH; [|exact HF']. apply add_branch_name.
+  Qed.
+End ParseJoin.
+
+(* ---------------------------------------------------------------------------------------------- *)
+(* dataframe_to_tree on a frame whose first column holds well-formed paths *)
+
+Definition stripped_of (pc sep : str) (rows : list record) : list (str * record) :=
+  map (fun r => (match dict_get pc r with
+                 | Some (VStr p) => strip_path p sep
+                 | _ => []
+                 end, dict_del pc r)) rows.
+
+Definition df_body (pc sep : str) (rows : list record) : res tree :=
+  if existsb (fun r => match dict_get pc r with Some (VStr _) => false | _ => true end) rows
+  then Raise Unmodelled else
+  if dup_conflict (stripped_of pc sep rows) then Raise ValueError else
+  match stripped_of pc sep rows with
+  | [] => Raise ValueError
+  | (p0, _) :: _ =>
+      let root_name := hd [] (split p0 sep) in
+      let root_attrs :=
+        match filter (fun pa => str_eqb (fst pa) root_name) (stripped_of pc sep rows) with
+        | (_, a) :: _ => row_attrs pc a
+        | [] => []
+        end in
+      if is_empty root_name then Raise TreeError else
+      add_paths sep (map (fun pa => (fst pa, row_attrs pc (snd pa))) (stripped_of pc sep rows))
+                (T None root_name root_attrs [])
+  end.
+
+Lemma dataframe_to_tree_unfold rows pc v0 r0 rest sep :
+  rows = ((pc, v0) :: r0) :: rest -> dataframe_to_tree rows sep = df_body pc sep rows.
+Proof. intros ->. reflexivity. Qed.
+
+Lemma dup_conflict_nodup (l : list (str * record)) : NoDup (map fst l) -> dup_conflict l = false.
+Proof.
+  induction l as [|[p a] l IH]; intros H; [reflexivity|]. cbn [map fst] in H. inversion H as [|? ? Hp Hl]; subst.
+  cbn [dup_conflict]. rewrite IH by exact Hl. rewrite orb_false_r.
+  destruct (existsb (fun qb => str_eqb (fst qb) p && negb (record_eqb (snd qb) a)) l) eqn:E; [|reflexivity].
+  apply existsb_exists in E as [[q b] [Hin Hq]]. cbn [fst snd] in Hq. apply andb_true_iff in Hq as [Hq _].
+  apply str_eqb_eq in Hq. subst q. exfalso. apply Hp. apply in_map_iff. exists (p, b). split; [reflexivity|exact Hin].
+Qed.
+
+Lemma existsb_false_forall {A} (p : A -> bool) l : (forall x, In x l -> p x = false) -> existsb p l = false.
+Proof.
+  induction l as [|x l IH]; intros H; [reflexivity|]. cbn [existsb]. rewrite H by (left; reflexivity).
+  apply IH. intros y Hy. apply H. right. exact Hy.
+Qed.
+
+Section FrameImport.
+  Variable c : N.
+
+  Lemma dataframe_to_tree_gen (F : list str * tree -> record) (f : tree -> record) r x0 xs' xs0 :
+    xs0 = ([r], x0) :: xs' ->
+    let xs := xs0 in
+    (forall pr, In pr xs -> exists rest, F pr = (s_path, VStr (path_name [c] (fst pr))) :: rest) ->
+    (forall pr, In pr xs -> row_attrs s_path (dict_del s_path (F pr)) = f (snd pr)) ->
+    (forall pr, In pr xs -> fst pr <> [] /\ Forall (clean c) (fst pr)) ->
+    NoDup (map fst xs) ->
+    dataframe_to_tree (map F xs) [c]
+    = add_paths [c] (map (fun pr => (join [c] (fst pr), f (snd pr))) xs) (T None r (f x0) []).
+  Proof.
+    intros -> xs. intros HF Hf Hc Hnd.
+    destruct (HF ([r], x0) (or_introl eq_refl)) as [rest0 E0].
+    rewrite (dataframe_to_tree_unfold (map F xs) s_path (VStr (path_name [c] [r])) rest0 (map F xs') [c])
+      by (unfold xs; cbn [map]; rewrite E0; reflexivity).
+    assert (Hs : stripped_of s_path [c] (map F xs)
+                 = map (fun pr => (join [c] (fst pr), dict_del s_path (F pr))) xs).
+    { unfold stripped_of. rewrite map_map. apply map_ext_in. intros pr Hpr.
+      destruct (HF pr Hpr) as [rest E]. rewrite E. cbn [dict_get]. rewrite str_eqb_refl. rewrite <- E.
+      destruct (Hc pr Hpr) as [Hne Hcl]. destruct (fst pr) as [|w ws] eqn:Ep; [contradiction|].
+      rewrite strip_path_ok by exact Hcl. reflexivity. }
+    unfold df_body. rewrite Hs.
+    assert (He : existsb (fun r1 => match dict_get s_path r1 with Some (VStr _) => false | _ => true end) (map F xs) = false).
+    { apply existsb_false_forall. intros r1 Hin.
+      apply in_map_iff in Hin as [pr [Epr Hpr]]. destruct (HF pr Hpr) as [rest E]. subst r1. rewrite E.
+      cbn [dict_get]. rewrite str_eqb_refl. reflexivity. }
+    rewrite He.
+    assert (Hd : dup_conflict (map (fun pr => (join [c] (fst pr), dict_del s_path (F pr))) xs) = false).
+    { apply dup_conflict_nodup. rewrite map_map. cbn [fst]. rewrite <- (map_map fst (join [c])).
+      apply NoDup_map_inj_on; [|exact Hnd]. intros a b Ha Hb Eab.
+      apply in_map_iff in Ha as [pa [Ea Ha]]. apply in_map_iff in Hb as [pb [Eb Hb]]. subst a b.
+      destruct (Hc pa Ha) as [Na Ca]. destruct (Hc pb Hb) as [Nb Cb]. apply (join_inj c); assumption. }
+    rewrite Hd. unfold xs at 1. cbn [map fst snd join]. cbv zeta.
+    destruct (Hc ([r], x0) (or_introl eq_refl)) as [_ Hr]. cbn [fst] in Hr. inversion Hr as [|? ? Hcr _]; subst.
+    assert (Hsp : split r [c] = [r]).
+    { apply (split_join c r []). constructor; [destruct Hcr as [_ H]; exact H|constructor]. }
+    rewrite Hsp. cbn [hd].
+    assert (Hfil : filter (fun pa : str * record => str_eqb (fst pa) r)
+                     (map (fun pr : list str * tree => (join [c] (fst pr), dict_del s_path (F pr))) xs)
+                   = (r, dict_del s_path (F ([r], x0)))
+                       :: filter (fun pa : str * record => str_eqb (fst pa) r)
+                            (map (fun pr : list str * tree => (join [c] (fst pr), dict_del s_path (F pr))) xs')).
+    { unfold xs. cbn [map filter fst snd join]. rewrite str_eqb_refl. reflexivity. }
+    rewrite Hfil. rewrite (Hf ([r], x0) (or_introl eq_refl)). cbn [snd].
+    destruct Hcr as [Hne _]. destruct r as [|y r]; [contradiction|]. cbn [is_empty nonempty negb].
+    f_equal. rewrite map_map. cbn [fst snd]. apply map_ext_in. intros pr Hpr. rewrite Hf by exact Hpr. reflexivity.
+  Qed.
+End FrameImport.
+
+(* ---------------------------------------------------------------------------------------------- *)
+(* frame round trip *)
+
+Lemma describe_keys_sub x k : In k (map fst (describe x)) -> In k (map fst (tattrs x)).
+Proof.
+  intros H. apply in_map_iff in H as [kv [E Hin]]. unfold describe in Hin. apply filter_In in Hin as [Hin _].
+  apply in_map_iff. exists kv. split; [exact E|]. eapply Permutation_in; [apply sort_items_perm|exact Hin].
+Qed.
+
+Lemma frame_safe_node t x : frame_safe t = true -> In x (pre t) -> ~ In s_path (map fst (tattrs x)).
+Proof.
+  unfold frame_safe. intros H Hx. rewrite forallb_forall in H. specialize (H x Hx). apply negb_true_iff in H.
+  intros Hin. assert (E : existsb (str_eqb s_path) (map fst (tattrs x)) = true).
+  { apply existsb_exists. exists s_path. split; [exact Hin|apply str_eqb_refl]. }
+  congruence.
+Qed.
+
+Lemma rel_nodes_snd t : map snd (rel_nodes t) = pre t.
+Proof.
+  rewrite <- nodes_under_root. unfold nodes_under.
+  assert (H : forall (l1 : list (list str)) (l2 : list tree), length l1 = length l2 -> map snd (combine l1 l2) = l2).
+  { induction l1 as [|a l1 IH]; intros [|b l2] E; try discriminate; [reflexivity|]. cbn. f_equal. apply IH.
+    injection E as E. exact E. }
+  apply H. apply paths_from_length.
+Qed.
+
+Lemma row_attrs_fill_ext p cs r1 r2 :
+  (forall k, In k cs -> k <> s_name -> k <> p -> lookup k r1 = lookup k r2) ->
+  row_attrs p (fill cs r1) = row_attrs p (fill cs r2).
+Proof.
+  induction cs as [|k cs IH]; intros H; [reflexivity|]. unfold row_attrs, fill in *. cbn [map filter fst snd].
+  rewrite IH by (intros k' Hk'; apply H; right; exact Hk').
+  destruct (str_eqb k s_name) eqn:E1.
+  { cbn [negb andb]. rewrite !andb_false_r. reflexivity. }
+  destruct (str_eqb k p) eqn:E2.
+  { cbn [negb andb]. rewrite !andb_false_r. reflexivity. }
+  rewrite (H k) by (try (left; reflexivity); apply str_eqb_neq; assumption). reflexivity.
+Qed.
+
+Lemma rel_nodes_shape t : exists xs', rel_nodes t = ([tname t], t) :: xs'.
+Proof. destruct t as [g n a ks]. cbn [rel_nodes tname]. eexists. reflexivity. Qed.
+
+Section FrameRT.
+  Variable c : N.
+
+  Definition frame_full (pr : list str * tree) : record :=
+    (s_path, VStr (path_name [c] (fst pr))) :: (s_name, VStr (tname (snd pr))) :: describe (snd pr).
+
+  Lemma frame_record_full pr :
+    NoDup (map fst (tattrs (snd pr))) -> ~ In s_path (map fst (tattrs (snd pr))) ->
+    frame_record full_opts [c] pr = frame_full pr.
+  Proof.
+    intros Hn Hp. unfold frame_record, frame_full. cbn [full_opts o_path_col o_name_key o_parent_key field app].
+    unfold requested. cbn [o_all_attrs]. apply dict_of_nodup. cbn [map fst]. constructor.
+    - intros [E|Hin]; [discriminate|]. apply Hp. apply describe_keys_sub. exact Hin.
+    - constructor; [apply describe_no_name|apply describe_keys_nodup; exact Hn].
+  Qed.
+
+  Lemma tree_to_dataframe_full t : valid_tree t = true -> frame_safe t = true ->
+    tree_to_dataframe t [c] [] full_opts = Ret (frame_of (map frame_full (rel_nodes t))).
+  Proof.
+    intros Hv Hs. rewrite tree_to_dataframe_spec. unfold spec_frame, nodes_from. cbn [subtree_at].
+    change (anc_names t []) with (@nil str). rewrite filter_true by apply selected_full.
+    rewrite nodes_under_root. f_equal. f_equal. apply map_ext_in. intros pr Hpr.
+    apply rel_nodes_in_pre in Hpr. apply frame_record_full.
+    - apply (valid_node_attrs t); assumption.
+    - apply (frame_safe_node t); assumption.
+  Qed.
+
+  Variable t : tree.
+  Hypothesis Hv : valid_tree t = true.
+  Hypothesis Hsafe : sep_safe [c] t = true.
+  Hypothesis Hfs : frame_safe t = true.
+
+  Let rows := map frame_full (rel_nodes t).
+  Let cols := frame_columns rows.
+  Let cols_np := filter (fun k => negb (str_eqb k s_path)) cols.
+  Definition frame_attrs (x : tree) : record := row_attrs s_path (fill cols_np (describe x)).
+
+  Lemma cols_head : exists cols', cols = s_path :: cols'.
+  Proof.
+    unfold cols, rows. destruct (rel_nodes_shape t) as [xs' E]. rewrite E. cbn [map]. unfold frame_full at 1.
+    apply frame_columns_head.
+  Qed.
+
+  Lemma fill_full_head pr : exists rest,
+    fill cols (frame_full pr) = (s_path, VStr (path_name [c] (fst pr))) :: rest.
+  Proof.
+    destruct cols_head as [cols' E]. rewrite E. cbn [fill map]. eexists. f_equal.
+  Qed.
+
+  Lemma fill_full_attrs pr :
+    row_attrs s_path (dict_del s_path (fill cols (frame_full pr))) = frame_attrs (snd pr).
+  Proof.
+    rewrite dict_del_fill. fold cols_np. unfold frame_attrs. apply row_attrs_fill_ext.
+    intros k _ Hn Hp. unfold lookup, frame_full. cbn [dict_get].
+    apply str_eqb_neq in Hn, Hp. rewrite Hn, Hp. reflexivity.
+  Qed.
+
+  Lemma frame_attrs_keys_nodup x : NoDup (map fst (frame_attrs x)).
+  Proof.
+    unfold frame_attrs, row_attrs. apply filter_keys_nodup. rewrite fill_keys. unfold cols_np.
+    apply NoDup_filter. apply frame_columns_nodup.
+  Qed.
+
+  Lemma cols_cover x k : In x (pre t) -> In k (map fst (describe x)) -> In k cols_np.
+  Proof.
+    intros Hx Hk. unfold cols_np. apply filter_In. split.
+    - rewrite <- rel_nodes_snd in Hx. apply in_map_iff in Hx as [pr [E Hpr]]. subst x.
+      apply (frame_columns_in rows (frame_full pr)).
+      + unfold rows. apply in_map. exact Hpr.
+      + unfold frame_full. cbn [map fst]. right. right. exact Hk.
+    - apply negb_true_iff. apply str_eqb_neq. intros ->. apply (frame_safe_node t x Hfs Hx).
+      apply describe_keys_sub. exact Hk.
+  Qed.
+
+  Lemma frame_attrs_norm x : In x (pre t) -> sort_items (frame_attrs x) = norm_attrs true (tattrs x).
+  Proof.
+    intros Hx. pose proof (valid_node_attrs t x Hv Hx) as Ha.
+    pose proof (describe_keys_nodup x Ha) as Hd.
+    apply sorted_perm_eq.
+    - apply sort_items_sorted. apply frame_attrs_keys_nodup.
+    - unfold norm_attrs. apply filter_sorted. apply sort_items_sorted. exact Ha.
+    - eapply Permutation_trans; [apply sort_items_perm|]. apply NoDup_Permutation.
+      + eapply NoDup_map_inv. apply frame_attrs_keys_nodup.
+      + eapply NoDup_map_inv. apply norm_attrs_keys_nodup. exact Ha.
+      + intros [k v]. unfold frame_attrs, row_attrs, norm_attrs. rewrite !filter_In. cbn [fst snd]. split.
+        * intros [Hin Hcond]. unfold fill in Hin. apply in_map_iff in Hin as [k' [E Hk']]. injection E as -> Ev.
+          apply andb_true_iff in Hcond as [Hcond _]. apply andb_true_iff in Hcond as [Hnn Hname].
+          unfold lookup in Ev. destruct (dict_get k (describe x)) as [v'|] eqn:Eg;
+            [|subst v; discriminate]. subst v'. apply dict_get_some_in in Eg.
+          unfold describe in Eg. apply filter_In in Eg as [Hin Hpub]. cbn [fst] in Hpub.
+          split; [exact Hin|]. rewrite Hpub, Hnn. reflexivity.
+        * intros [Hin Hcond]. apply andb_true_iff in Hcond as [Hpub Hnn]. cbn [negb orb] in Hnn.
+          assert (Hdesc : In (k, v) (describe x)) by (unfold describe; apply filter_In; split; assumption).
+          assert (Hk : In k (map fst (describe x))) by (apply in_map_iff; exists (k, v); split; [reflexivity|exact Hdesc]).
+          pose proof (cols_cover x k Hx Hk) as Hc.
+          split.
+          -- unfold fill. apply in_map_iff. exists k. split; [|exact Hc]. f_equal.
+             unfold lookup. rewrite (dict_get_in k v (describe x) Hd Hdesc). reflexivity.
+          -- rewrite Hnn. cbn [andb]. unfold public_key in Hpub. apply andb_true_iff in Hpub as [Hn _].
+             rewrite Hn. cbn [andb]. unfold cols_np in Hc. apply filter_In in Hc as [_ Hc]. exact Hc.
+  Qed.
+
+  Lemma sort_rebuild_frame : forall x, (forall y, In y (pre x) -> In y (pre t)) ->
+    sort_tree (rebuild frame_attrs x) = norm_tree true x.
+  Proof.
+    intros x. induction x as [g n a ks IH] using tree_ind'. intros Hsub.
+    cbn [rebuild sort_tree norm_tree]. f_equal.
+    - apply (frame_attrs_norm (T g n a ks)). apply Hsub. left. reflexivity.
+    - rewrite map_map. apply map_ext_in. intros k Hk. rewrite Forall_forall in IH. apply IH; [exact Hk|].
+      intros y Hy. apply Hsub. cbn [pre]. right. apply in_flat_map. exists k. split; assumption.
+  Qed.
+
+  Theorem rt_frame_ok : res_map sort_tree (rt_frame t [c]) = Ret (norm_tree true t).
+  Proof.
+    unfold rt_frame. rewrite tree_to_dataframe_full by assumption. cbn [bind]. fold rows.
+    assert (Hcols : frame_columns rows <> []).
+    { fold cols. destruct cols_head as [cols' E]. rewrite E. discriminate. }
+    rewrite frame_of_fill by exact Hcols. fold cols. unfold rows. rewrite map_map.
+    pose proof (names_clean_of c t Hv Hsafe) as Hc.
+    pose proof (rel_nodes_clean c t Hc) as Hcl. rewrite Forall_forall in Hcl.
+    pose proof (rel_nodes_nonempty t) as Hne. rewrite Forall_forall in Hne.
+    destruct (rel_nodes_shape t) as [xs' Exs].
+    rewrite (dataframe_to_tree_gen c (fun pr => fill cols (frame_full pr)) frame_attrs (tname t) t xs' (rel_nodes t) Exs).
+    - rewrite <- (map_map (fun pr => (fst pr, frame_attrs (snd pr))) (fun z => (join [c] (fst z), snd z))).
+      rewrite rel_nodes_recs, map_map. cbn [fst snd].
+      rewrite (add_paths_join_ok c (tname t)) by (try reflexivity; apply rel_recs_clean; exact Hc).
+      cbn [res_map]. f_equal.
+      rewrite (rebuild_from_records frame_attrs t Hv (fun x _ => frame_attrs_keys_nodup x)).
+      + apply sort_rebuild_frame. intros y Hy. exact Hy.
+      + apply dict_update_present; [apply frame_attrs_keys_nodup|apply incl_refl].
+    - intros pr _. apply fill_full_head.
+    - intros pr _. apply fill_full_attrs.
+    - intros pr Hpr. split; [apply Hne; exact Hpr|apply Hcl; exact Hpr].
+    - apply rel_paths_nodup. exact Hv.
+  Qed.
+End FrameRT.
+
+Theorem prop_rt_frame_model c t : prop_rt_path true [c] t (rt_frame t [c]) = true.
+Proof.
+  unfold prop_rt_path. destruct (valid_tree t) eqn:Hv; [|reflexivity].
+  destruct (sep_safe [c] t) eqn:Hs; [|reflexivity]. cbn [andb negb orb].
+  destruct (frame_safe t) eqn:Hf; [|reflexivity].
+  pose proof (rt_frame_ok c t Hv Hs Hf) as H. unfold same_tree.
+  destruct (rt_frame t [c]) as [t'|e]; cbn [res_map] in H; [|discriminate].
+  injection H as H. rewrite H. apply tree_eqb_refl.
+Qed.
